@@ -40,6 +40,12 @@ def program(comps, indirect):
         elif indirect == "or-group-2":
             grp = f"E({args}) or Zzz{i}()" if i % 2 == 1 else f"E({args})"
             out.append(f"{dec}flow f{i}\n{pr}  match {grp}\n  start Act{act}Action()\n  match Done()\n")
+        elif indirect == "mixed" and i % 2 == 1 or indirect == "mixed-2" and i % 2 == 0:
+            # this competitor reaches its action through an awaited sub-flow (longer score chain)
+            out.append(f"flow g{i}\n{pr}  match E({args})\n")
+            out.append(f"{dec}flow f{i}\n  await g{i}\n  start Act{act}Action()\n  match Done()\n")
+        elif indirect in ("mixed", "mixed-2"):
+            out.append(f"{dec}flow f{i}\n{pr}  match E({args})\n  start Act{act}Action()\n  match Done()\n")
         elif not indirect:
             out.append(f"{dec}flow f{i}\n{pr}  match E({args})\n  start Act{act}Action()\n  match Done()\n")
         elif indirect == "prio-in-wrapper":
@@ -53,7 +59,7 @@ def program(comps, indirect):
     return "\n".join(out) + "\n" + main
 
 
-def score(comp, indirect=False):
+def score(comp, indirect=False, idx=0):
     """score chain as a tuple (compared left to right).  Wrappers are structurally identical, so the
     score of their match on the internal Finished event is one common constant c > 0; only the
     declared priority of the wrapper scales it."""
@@ -62,6 +68,13 @@ def score(comp, indirect=False):
     s *= 0.9 ** (N_EVENT_PARAMS - len(MASKS[mi]))
     if indirect == "prio-in-wrapper":
         return (s, prio or 1.0)
+    if indirect in ("mixed", "mixed-2"):
+        # chains of different length are padded with 1.0; the wrapper's match on the internal Finished
+        # event scores some c with 0 < c < 1 (it leaves event parameters unmentioned) - 0.5 stands for c
+        if prio:
+            s *= prio
+        is_indirect = (idx % 2 == 1) if indirect == "mixed" else (idx % 2 == 0)
+        return (s, 0.5) if is_indirect else (s, 1.0)
     if prio:
         s *= prio
     return (s,)
@@ -144,8 +157,8 @@ def explore(task):
                 grp = [i for i in fit if comps[i][2] == loop]
                 if not grp:
                     continue
-                best = max(score(comps[i], indirect) for i in grp)
-                argmax = [i for i in grp if score(comps[i], indirect) == best]
+                best = max(score(comps[i], indirect, i) for i in grp)
+                argmax = [i for i in grp if score(comps[i], indirect, i) == best]
                 ws = {i: where(st, flow_of(st, i)) if flow_of(st, i) else "gone" for i in grp}
                 winners = [i for i in grp if ws[i] == "done"]
                 losers = [i for i in grp if ws[i] == "stopped"]
@@ -162,7 +175,7 @@ def explore(task):
                 if act not in {comps[i][1] for i in argmax}:
                     raise Violation("less-specific-flow-won",
                                     f"loop {loop}: action {act} won but most specific flows are {argmax} "
-                                    f"(scores { {i: score(comps[i], indirect) for i in grp} })", detail)
+                                    f"(scores { {i: score(comps[i], indirect, i) for i in grp} })", detail)
                 missing = [i for i in grp if comps[i][1] == act and i not in winners]
                 if missing:
                     raise Violation("identical-action-flow-failed",
@@ -208,6 +221,17 @@ def tasks(tier):
     for pair in itertools.product(space, repeat=2):
         out.append((pair, "or-group", depth))
         out.append((pair, "or-group-2", 2))
+    # chains of different length: a direct competitor against one that goes through an awaited sub-flow
+    redm = [c for c in space if c[2] == "L1" and c[3] is None]
+    for pair in itertools.product(redm, repeat=2):
+        out.append((pair, "mixed", 2))
+        out.append((pair, "mixed-2", 2))
+    # three competitors, the middle one (by start order) in another interaction loop
+    masks3 = range(len(MASKS))
+    for m0, m1, m2 in itertools.product(masks3, repeat=3):
+        for order in ((0, 1, 2), (1, 0, 2), (0, 2, 1)):
+            base = [(m0, "A", "L1", None), (m1, "A", "L2", None), (m2, "B", "L1", None)]
+            out.append((tuple(base[k] for k in order), False, 2))
     # priority declared in the awaiting wrapper (its deciding match is on an internal event)
     redp = [c for c in space if c[2] == "L1"]
     for pair in itertools.product(redp, repeat=2):
